@@ -32,10 +32,10 @@ def session_logs(focus, seed, runs, workers, tag):
     return logs
 
 
-def conc_logs(seed, runs, workers, tag):
+def conc_logs(seed, runs, workers, tag, family="conc"):
     import concsim
-    directory = fresh_dir(os.path.join(SCRATCH, f"det-conc-{tag}"))
-    records = concsim.run_shards("quick", seed, runs, directory, events=True, workers=workers)
+    directory = fresh_dir(os.path.join(SCRATCH, f"det-{family}-{tag}"))
+    records = concsim.run_shards("quick", seed, runs, directory, events=True, workers=workers, family=family)
     logs = {}
     for record in records:
         for entry in record["event_logs"]:
@@ -120,6 +120,10 @@ def main(argv, seed):
         variants = [(f"{w} workers, execution {e}", conc_logs(seed, 300, w, f"{w}-{e}")) for w in (16, 5) for e in (1, 2)]
         report["engines"]["concsim"] = {"executions_compared": len(variants[0][1]), "executions": 4}
         report["divergences"] += compare("concsim", variants)
+        # the language-server family: every frame the server wrote, every judgement, in order
+        variants = [(f"{w} workers, execution {e}", conc_logs(seed, 400, w, f"{w}-{e}", family="lsp")) for w in (16, 5) for e in (1, 2)]
+        report["engines"]["concsim/lsp"] = {"executions_compared": len(variants[0][1]), "executions": 4}
+        report["divergences"] += compare("concsim/lsp", variants)
     if "hostsim" in engines:
         common.build_sim(["hostsim"])
         variants = [(f"{w} workers, execution {e}", host_logs(seed, 16, 300, w, f"{w}-{e}")) for w in (16, 5) for e in (1, 2)]
